@@ -16,7 +16,7 @@ CLAIMED = {
          "DESIGN.md 4 C02"),
  "C03": ("seeded boundary-dense random search + enumeration around the range ends against an i128 time line",
          "1M (quick) / 20M (thorough) timestamps over the full i64 domain and as many pairs of instants with independent offsets; every comparison operator and the sign of all *_since checked against the exact instants. Absence of counter-examples in N generated cases, not a proof",
-         "trusts i128 arithmetic and the calendar model; set_offset is applied to values >= 2 days inside the range only",
+         "trusts i128 arithmetic and the calendar model; set_offset is applied to values at least one day inside the range only (where every offset has a representable local reading)",
          "DESIGN.md 4 C03"),
  "C04": ("seeded boundary-dense random search against an i128 time line with a representability predicate, in two overflow profiles",
          "2M (quick) / 40M (thorough) operations over receivers of all eras, u32 counts incl. the 2^63/2^64 overflow thresholds, Durations up to u64::MAX seconds and range-end targeting; representable => exact instant and offset, otherwise panic. Running astrolabe with overflow checks on and off turns both 'spurious panic' and 'silently wrapped value' into observable failures",
@@ -40,11 +40,11 @@ CLAIMED = {
          "DESIGN.md 4 C08"),
  "C09": ("seeded random search against a local-field model (apply offset, edit one field, remove offset)",
          "2.3M (quick) / 45M (thorough) (instant, offset, operation, candidate) cases over all 10 setters and 9 clears on DateTime, Date and Time with offsets biased to make the local date differ from the UTC date; all 11 getters of the result, the offset and the instant compared with the model; invalid candidates must give OutOfRange",
-         "sub-second setter ranges taken from the getter docs/error messages (0..=999, 0..=999_999, 0..=999_999_999), the setter doc sentences '0..=100...' being treated as typos; targets within 2 days of a range end skipped as unspecified",
+         "sub-second setter ranges taken from the getter docs/error messages (0..=999, 0..=999_999, 0..=999_999_999), the setter doc sentences '0..=100...' being treated as typos; clear_until_* (infallible signature) with receiver or target within 2-3 days of a range end skipped as unspecified; setters are judged there too (exact value, or OutOfRange when the instant is not representable)",
          "DESIGN.md 4 C09"),
  "C10": ("enumeration of the offset axis (every 61st offset quick, all 172 799 thorough) x fixed instants + seeded random search against the local-field model",
          "set_offset keeps timestamp/instant/equality/order/all differences and shifts every getter and the formatted rendering by the offset; as_offset keeps the fields and moves the instant; Offset constructors accept exactly +-23:59:59. The offset axis is finite and enumerated completely in the thorough tier",
-         "as_offset on a value already carrying an offset and instants within 2 days of the range ends are unspecified and not generated",
+         "instants on the outermost day at each end are outside the property's quantifier (one-day margin) and not generated; for as_offset on a value already carrying an offset only the instant/offset clause is asserted",
          "DESIGN.md 4 C10"),
  "C15": ("seeded boundary-dense random search over argument tuples with a validity model; metamorphic message-range consistency sweep",
          "2M (quick) / 40M (thorough) argument tuples over all 12 constructor/setter families (29 functions), each judged for Ok <=> valid, exact value, OutOfRange, no panic, plus ~45 alternative-value probes per rejected call whose message states a range; 500k / 5M DateTime setter calls on offset-carrying receivers on the two outermost days at each range end (valid fields with an unrepresentable instant must give OutOfRange)",
